@@ -15,6 +15,7 @@
 package admin
 
 import (
+	"context"
 	"fmt"
 	"net"
 	"net/http"
@@ -91,11 +92,21 @@ func (s *Server) tryListen(addr string, portInUseRetry bool) (net.Listener, erro
 	}
 }
 
+// stopTimeout is the time to wait for the active connections when stopping.
+const stopTimeout = 2 * time.Second
+
 // Stop stop the server
 func (s *Server) Stop() {
-	switch err := s.hs.Shutdown(nil); err {
+	// NOTE: Shutdown waits for the connections which aren't idle (e.g. a new
+	// connection without a request yet), it needs a context for that: a nil
+	// one makes it panic as soon as there is such a connection.
+	ctx, cancel := context.WithTimeout(context.Background(), stopTimeout)
+	defer cancel()
+	switch err := s.hs.Shutdown(ctx); err {
 	case nil:
 	default:
 		logger.Warnf("Failed to stop HTTP server, error: %s", err)
+		// don't wait for them any longer.
+		s.hs.Close()
 	}
 }
